@@ -1,7 +1,9 @@
 /-
   Lemmas.WFWitness — the exceptions of `wfExceptions` are real: for each handler with a `_wf_partial`
   theorem, a concrete context, state and command on which the model answers a success reply that the strict
-  RESP parser rejects (and that therefore is not `WF`).
+  RESP parser rejects (and that therefore is not `WF`). The former second class — the unterminated empty
+  array `*0` of the set listings — was repaired upstream: its reachability witnesses are gone, replaced by
+  runs showing the terminated `*0\r\n`.
 -/
 import SugarModel.Lemmas.WFTable
 namespace Sugar
@@ -22,18 +24,13 @@ def sCrlf : State := { dbs := [(0, ⟨[(b "k", ⟨.str (b "a\r\nb"), none⟩)], 
 def sSets : State := { dbs := [(0, ⟨[(b "k", ⟨.set 0 [], none⟩), (b "j", ⟨.set 0 [b "x"], none⟩),
   (b "l", ⟨.set 0 [b "y"], none⟩)], []⟩)], mem := 200 }
 
-/-- the two malformed replies -/
+/-- the malformed reply: a simple string whose text holds CR LF -/
 def dirtyReply : Bytes := b "+a\r\nb\r\n"
-def star0Reply : Bytes := b "*0"
 
 theorem dirtyReply_rejected : (parseReply dirtyReply).isSome = false := by
   have e : dirtyReply = [43, 97, 13, 10, 98, 13, 10] := by decide
   rw [e]
   simp [parseReply, parseOne, splitCrlf, cleanLine]
-theorem star0Reply_rejected : (parseReply star0Reply).isSome = false := by
-  have e : star0Reply = [42, 48] := by decide
-  rw [e]
-  simp [parseReply, parseOne, splitCrlf]
 /-- `*1\r\n` announces one element and delivers none -/
 theorem star1_rejected : (parseReply (b "*1\r\n")).isSome = false := by
   have e : b "*1\r\n" = [42, 49, 13, 10] := by decide
@@ -45,9 +42,7 @@ theorem star1_rejected : (parseReply (b "*1\r\n")).isSome = false := by
   unfold parseOne.elems
   simp [parseOne]
 theorem dirtyReply_not_wf : ¬ WF dirtyReply := not_wf_of_parse dirtyReply_rejected
-theorem star0Reply_not_wf : ¬ WF star0Reply := not_wf_of_parse star0Reply_rejected
 theorem dirtyReply_not_wfok : ¬ Res.WFok (.ok dirtyReply) := dirtyReply_not_wf
-theorem star0Reply_not_wfok : ¬ Res.WFok (.ok star0Reply) := star0Reply_not_wf
 
 /-- GET answers `+a\r\nb\r\n` for a stored value containing CR LF -/
 theorem get_dirty : ((handleGet c0 [b "get", b "k"]).run c0 sCrlf).2 = .done (.ok dirtyReply) := by decide
@@ -58,18 +53,20 @@ theorem getex_dirty : ((handleGetex c0 [b "getex", b "k"]).run c0 sCrlf).2 = .do
 /-- SET … GET answers the old value the same way -/
 theorem set_dirty : ((handleSet c0 [b "set", b "k", b "v", b "get"]).run c0 sCrlf).2 = .done (.ok dirtyReply) := by decide
 
-/-- SMEMBERS of a stored empty set answers the bare `*0` -/
-theorem smembers_star0 : ((handleSMembers c0 [b "smembers", b "k"]).run c0 sSets).2 = .done (.ok star0Reply) := by decide
-/-- SRANDMEMBER of a stored empty set -/
-theorem srandmember_star0 : ((handleSRandMember c0 [b "srandmember", b "k"]).run c0 sSets).2 = .done (.ok star0Reply) := by decide
-/-- SPOP of a stored empty set -/
-theorem spop_star0 : ((handleSPop c0 [b "spop", b "k"]).run c0 sSets).2 = .done (.ok star0Reply) := by decide
+/-! ### repaired upstream: the empty set listings are terminated (formerly the bare `*0`) -/
+
+/-- SMEMBERS of a stored empty set answers the header `*0\r\n` and no members -/
+theorem smembers_empty_terminated :
+    ((handleSMembers c0 [b "smembers", b "k"]).run c0 sSets).2 = .done (.okPerm (b "*0\r\n") []) := by decide
+/-- SRANDMEMBER with count 0 -/
+theorem srandmember_zero_terminated :
+    ((handleSRandMember c0 [b "srandmember", b "j", b "0"]).run c0 sSets).2 = .done (.ok (b "*0\r\n")) := by decide
 /-- SDIFF of a set with itself -/
-theorem sdiff_star0 : ((handleSDiff false c0 [b "sdiff", b "j", b "j"]).run c0 sSets).2 = .done (.ok star0Reply) := by decide
+theorem sdiff_empty_terminated :
+    ((handleSDiff false c0 [b "sdiff", b "j", b "j"]).run c0 sSets).2 = .done (.okPerm (b "*0\r\n") []) := by decide
 /-- SINTER of two disjoint sets -/
-theorem sinter_star0 : ((handleSInter 0 c0 [b "sinter", b "j", b "l"]).run c0 sSets).2 = .done (.ok star0Reply) := by decide
-/-- SUNION of an empty set -/
-theorem sunion_star0 : ((handleSUnion false c0 [b "sunion", b "k"]).run c0 sSets).2 = .done (.ok star0Reply) := by decide
+theorem sinter_empty_terminated :
+    ((handleSInter 0 c0 [b "sinter", b "j", b "l"]).run c0 sSets).2 = .done (.okPerm (b "*0\r\n") []) := by decide
 
 /-- MGET is in the exception list only because its well-formedness needs the `GetValues` length
     postcondition: over *arbitrary* primitive results the syntactic statement is false -/
